@@ -182,7 +182,7 @@ PROPS = {
     "C14": {
         "gen": ["consts", "shape"],
         "modes": [{"name": "ufsio", "harness": "ufsio", "modelcheck": "ufs"}],
-        "rule": "real Clnt <-> real server framework <-> Ufs on a scratch tree: file lengths {0, 1, iounit-1, iounit, iounit+1, 2*iounit+1, 3*iounit-1, random} with random contents, msize {128, 256, 1000, 4096, 8192, 65536}, both dialects, 6-15 operations per file among Clnt.Read, File.Readn, File.Read, Clnt.Write, File.Written, File.Write with offsets at 0 / EOF-1 / EOF / past EOF / random and counts 0 / 1 / iounit / several iounits, a second file open at the same time. Oracle: after every operation the harness compares with the underlying file through the os package (returned bytes = file[off:off+n], file after write = POSIX pwrite); correspondence: the Coq model frun on the same operations returns the same data/counts/EOF and final file. Non-trivial: a case with at least one read-type and one write-type operation; distinct by content.",
+        "rule": "In every fifth case the file is opened through a symbolic link inside the tree (the fid's Lstat describes the link, the descriptor is open on the file). real Clnt <-> real server framework <-> Ufs on a scratch tree: file lengths {0, 1, iounit-1, iounit, iounit+1, 2*iounit+1, 3*iounit-1, random} with random contents, msize {128, 256, 1000, 4096, 8192, 65536}, both dialects, 6-15 operations per file among Clnt.Read, File.Readn, File.Read, Clnt.Write, File.Written, File.Write with offsets at 0 / EOF-1 / EOF / past EOF / random and counts 0 / 1 / iounit / several iounits, a second file open at the same time. Oracle: after every operation the harness compares with the underlying file through the os package (returned bytes = file[off:off+n], file after write = POSIX pwrite); correspondence: the Coq model frun on the same operations returns the same data/counts/EOF and final file. Non-trivial: a case with at least one read-type and one write-type operation; distinct by content.",
         "level_text": "Coq theorems (Props/C14.v) over the model of Ufs.Read/Ufs.Write on a regular file, the srv.read/write count guard, Clnt.Open's iounit, Clnt.Read/Write and the File helpers: for every file content, msize, iounit, offset and count the bytes read equal POSIX pread of the file (empty at or beyond EOF), File.Read advances its offset by what it returned, Readn returns exactly the requested bytes up to EOF and Written leaves exactly pwrite(file, off, data) for ANY chunking (two different iounits give the same file). Tied to the code by differential runs against real files.",
         "level_note": "Trusted: Coq kernel, translator (IOHDRSZ), extraction + OCaml driver, Go harness. The underlying file is modelled as a byte list with POSIX pread/pwrite (validated against the os package in every harness run, not proved); offsets >= 2^63 are errors as in Go's ReadAt. Print Assumptions: closed under the global context.",
         "assumptions": ["os.File.ReadAt/WriteAt behave as POSIX pread/pwrite on regular files"],
@@ -195,7 +195,7 @@ PROPS = {
         "level_note": "Trusted: Coq kernel, extraction + OCaml driver, Go harness. The snapshot (entry sizes and order) comes from the OS and is an input of the model; UnpackDir correctness is C01. Print Assumptions: closed under the global context.",
     },
     "C03": {
-        "gen": ["consts", "shape"],
+        "gen": ["consts", "shape", "lockfacts"],
         "clauses": ["C03"],
         "modes": [{"name": "srvconc", "harness": "srvconc", "modelcheck": "conc"},
                   {"name": "srvbuf", "harness": "srvconc", "modelcheck": "bufref", "args": ["buf"]}],
@@ -204,15 +204,15 @@ PROPS = {
         "level_note": "Trusted: Coq kernel; extraction + OCaml driver; the Go harness: the translation of the library's schedule points (verifPoint hooks, logged under one mutex inside the library's own critical sections) into LTS labels, the scripted implementation, the fake transport. The LTS over-approximates call/return of nested Respond calls (every real schedule is a schedule of the LTS); mutex atomicity, channel FIFO/rendezvous and goroutine semantics of the Go runtime are assumed; the fid table and message contents are abstracted (C04/C05 and content ids); reply-buffer recycling between requests is exercised by the harness only. Print Assumptions: closed under the global context.",
     },
     "C07": {
-        "gen": ["consts", "shape"],
+        "gen": ["consts", "shape", "lockfacts"],
         "clauses": ["C07"],
         "modes": [{"name": "srvconc", "harness": "srvconc", "modelcheck": "conc"}],
-        "rule": "Tflush arriving at every stage of the target's life: in the same segment as the target (before it starts), while it is blocked in the implementation (with and without FlushOp, implementation agreeing to cancel or not), while the implementation answers concurrently, after the reply, unknown tag, flush of a flush and two flushes of one request, a Tflush naming itself / two naming each other (known finding); Maxpend 0/1/4. Replay of the schedule-point trace through the LTS plus oracle on the real wire: every Tflush answered once, the target's reply never after the Rflush, and when no reply preceded the Rflush the target is not handed to the implementation afterwards. Non-trivial: >= 3 requests; distinct by content.",
+        "rule": "flushwalk: a Twalk to a new fid is cancelled by the implementation (FlushOp calling req.Flush()) while it executes; only the Rflush arrives, the cancelled new fid is reported destroyed exactly once and its number is free again (the same Twalk sent afterwards reaches the implementation). Tflush arriving at every stage of the target's life: in the same segment as the target (before it starts), while it is blocked in the implementation (with and without FlushOp, implementation agreeing to cancel or not), while the implementation answers concurrently, after the reply, unknown tag, flush of a flush and two flushes of one request, a Tflush naming itself / two naming each other (known finding); Maxpend 0/1/4. Replay of the schedule-point trace through the LTS plus oracle on the real wire: every Tflush answered once, the target's reply never after the Rflush, and when no reply preceded the Rflush the target is not handed to the implementation afterwards. Non-trivial: >= 3 requests; distinct by content.",
         "level_text": "Coq theorems (Props/C07.v) over the life-cycle LTS, for EVERY reachable state and schedule: if both the flushed request's reply and the Rflush are written the reply comes first; once the Rflush is on the wire without a preceding reply the target is never handed to the implementation afterwards and never answered; a request whose reqFlush bit is set before any goroutine worked on it is never executed, and the flush handler cancels only such requests; every Tflush whose target is an ordinary request is answered exactly once. The unrestricted 'every Tflush is answered' is REFUTED on the faithful model (a Tflush naming its own tag waits for itself), replayed on the real server and recorded as known finding flush-cycle.",
         "level_note": "Trusted: Coq kernel; extraction + OCaml driver; the Go harness: the translation of the library's schedule points (verifPoint hooks, logged under one mutex inside the library's own critical sections) into LTS labels, the scripted implementation, the fake transport. The LTS over-approximates call/return of nested Respond calls (every real schedule is a schedule of the LTS); mutex atomicity, channel FIFO/rendezvous and goroutine semantics of the Go runtime are assumed; the fid table and message contents are abstracted (C04/C05 and content ids); reply-buffer recycling between requests is exercised by the harness only. Print Assumptions: closed under the global context. Shared-tag targets are outside the quantifier (hypothesis NoGroups).",
     },
     "C08": {
-        "gen": ["consts", "shape"],
+        "gen": ["consts", "shape", "lockfacts"],
         "clauses": ["C08"],
         "modes": [{"name": "srvconc", "harness": "srvconc", "modelcheck": "conc"},
                   {"name": "clnt", "harness": "clnt", "modelcheck": "clnt"}],
@@ -221,15 +221,16 @@ PROPS = {
         "level_note": "Trusted: Coq kernel; extraction + OCaml driver; the Go harness: the translation of the library's schedule points (verifPoint hooks, logged under one mutex inside the library's own critical sections) into LTS labels, the scripted implementation, the fake transport. The LTS over-approximates call/return of nested Respond calls (every real schedule is a schedule of the LTS); mutex atomicity, channel FIFO/rendezvous and goroutine semantics of the Go runtime are assumed; the fid table and message contents are abstracted (C04/C05 and content ids); reply-buffer recycling between requests is exercised by the harness only. Print Assumptions: closed under the global context. Scheduler fairness and transport progress (the send goroutine gets to run, the peer reads) are assumed; several connections share no state in the model (one LTS per connection).",
     },
     "C11": {
-        "gen": ["consts", "shape"],
+        "gen": ["consts", "shape", "lockfacts"],
         "clauses": ["C11"],
         "modes": [{"name": "srvconc", "harness": "srvconc", "modelcheck": "conc"},
                   {"name": "fidlife", "harness": "fidlife", "modelcheck": "fidref", "timeout": {"quick": 900, "thorough": 3000}},
                   {"name": "bystander", "harness": "bystander", "modelcheck": None},
+                  {"name": "ufsfds", "harness": "ufsfds", "modelcheck": None},
                   {"name": "srvseq-random", "harness": "srvseq", "modelcheck": "srvseq", "args": ["random"]}],
-        "rule": "bystander: a victim and a bystander connection on one server; the victim disconnects while the implementation's FidDestroy / ConnClosed callback blocks; the bystander's requests and a brand-new connection must be served meanwhile, and the victim is released completely afterwards. Fid life time: fids in several states (attached, walked, opened), then 0..4 requests (walks creating fids, attaches, clunks, removes, stats, in-place walks) held either before the framework processes them or inside the implementation, some released before and the rest after the disconnect in random order, answered with success or error; every fid object the library created must be reported destroyed exactly once when everything is quiet, and the library's fid schedule points (FidNew, FidGet lookup/increment, retain, unlink, DecRef, destroy, close snapshot; logged inside the library's own critical sections) are replayed through Srv/FidRef.v with the reported refcount and flags compared at every step. Also: replies piled up behind a blocked Write and at the hand-over to the send goroutine when the client disconnects (discslow), Tversion frames still buffered when a Write fails (discver). And: disconnect with 0..4 requests blocked in the implementation, some answered before and the rest after the disconnect in random orders (sync and async), Maxpend 0/1/4: the schedule-point trace is replayed through the LTS and every Respond invocation must have finished (no goroutine left inside Respond), ConnClosed exactly once; sequential histories ending in a disconnect: every fid still valid (per the abstract fid set) is destroyed exactly once at close, nothing else is. Non-trivial: >= 3 requests; distinct by content.",
+        "rule": "ufsfds: Ufs on a scratch tree, one client session per case in either dialect: fids walked (complete, partial, failing), files and directories opened and read, files / directories / symbolic links / hard links created (hard links that fail too: existing name, directory target), clunks, removes, refused second opens; the session ends by an orderly unmount, by cutting the transport, or by cutting it with a read outstanding; afterwards every fid object the implementation was shown must have been reported destroyed exactly once, ConnClosed exactly once, and no descriptor of the process may point into the exported tree any more (/proc/self/fd). bystander: a victim and a bystander connection on one server; the victim disconnects while the implementation's FidDestroy / ConnClosed callback blocks; the bystander's requests and a brand-new connection must be served meanwhile, and the victim is released completely afterwards. Fid life time: fids in several states (attached, walked, opened), then 0..4 requests (walks creating fids, attaches, clunks, removes, stats, in-place walks) held either before the framework processes them or inside the implementation, some released before and the rest after the disconnect in random order, answered with success or error; every fid object the library created must be reported destroyed exactly once when everything is quiet, and the library's fid schedule points (FidNew, FidGet lookup/increment, retain, unlink, DecRef, destroy, close snapshot; logged inside the library's own critical sections) are replayed through Srv/FidRef.v with the reported refcount and flags compared at every step. Also: replies piled up behind a blocked Write and at the hand-over to the send goroutine when the client disconnects (discslow), Tversion frames still buffered when a Write fails (discver). And: disconnect with 0..4 requests blocked in the implementation, some answered before and the rest after the disconnect in random orders (sync and async), Maxpend 0/1/4: the schedule-point trace is replayed through the LTS and every Respond invocation must have finished (no goroutine left inside Respond), ConnClosed exactly once; sequential histories ending in a disconnect: every fid still valid (per the abstract fid set) is destroyed exactly once at close, nothing else is. Non-trivial: >= 3 requests; distinct by content.",
         "level_text": "Coq theorems (Props/C11.v) over the life-cycle LTS for EVERY reachable state: after the disconnect nothing is written or received, the disconnect cannot happen twice, and no Respond ever blocks (every goroutine still answering for the dead connection can finish); over the fid life-time LTS (Srv/FidRef.v, every label one critical section of FidNew/FidGet/retain/unlink/DecRef/Conn.close, any interleaving with requests in flight): every fid is reported destroyed at most once, never while a request holds a counted reference, the reference count equals the number of holders, and once the connection is closed and the requests have returned every fid ever created has been destroyed exactly once and the table is empty (the reference counting before fix 7f592a2 is refuted by concrete schedules: destroyed twice, never, and resurrected); with the sequential model's invariant (one reference per fid) the close path destroys each remaining fid exactly once. Tied to the code by trace replay of disconnect histories and by the close events of sequential histories.",
-        "level_note": "Trusted: Coq kernel; extraction + OCaml driver; the Go harness: the translation of the library's schedule points (verifPoint hooks, logged under one mutex inside the library's own critical sections) into LTS labels, the scripted implementation, the fake transport. The LTS over-approximates call/return of nested Respond calls (every real schedule is a schedule of the LTS); mutex atomicity, channel FIFO/rendezvous and goroutine semantics of the Go runtime are assumed; the fid table and message contents are abstracted (C04/C05 and content ids); reply-buffer recycling between requests is exercised by the harness only. Print Assumptions: closed under the global context. Not covered by a theorem: fids created by requests that complete after the close loop (they are reclaimed only by the garbage collector), Ufs closing its descriptors (FidDestroy -> Close is one line, exercised by the Ufs harness sessions), goroutine counts (checked through the model's finished-frames criterion, not through the runtime).",
+        "level_note": "Trusted: Coq kernel; extraction + OCaml driver; the Go harness: the translation of the library's schedule points (verifPoint hooks, logged under one mutex inside the library's own critical sections) into LTS labels, the scripted implementation, the fake transport. The LTS over-approximates call/return of nested Respond calls (every real schedule is a schedule of the LTS); mutex atomicity, channel FIFO/rendezvous and goroutine semantics of the Go runtime are assumed; the fid table and message contents are abstracted (C04/C05 and content ids); reply-buffer recycling between requests is exercised by the harness only. Print Assumptions: closed under the global context. Not covered by a theorem: fids created by requests that complete after the close loop (they are reclaimed only by the garbage collector), Ufs closing its descriptors (FidDestroy -> Close is one line; observed through /proc/self/fd by the ufsfds sessions, not modelled), goroutine counts (checked through the model's finished-frames criterion, not through the runtime).",
     },
     "C04": {
         "gen": ["consts", "shape"],
@@ -259,7 +260,7 @@ PROPS = {
         "level_note": "Trusted: Coq kernel; translator for error texts/numbers, IOHDRSZ/MSIZE/NOFID/NOUID and the QT*/DM*/O* bits; extraction + OCaml driver; the Go harness (scripted implementation, net.Pipe transport). One request at a time (the concurrent life cycle is C03/C07/C08/C11); the user database is the default OsUsers; the implementation is an arbitrary input (script) answering with the matching R-message or an error; the reply buffer is modelled by its capacity. Print Assumptions: closed under the global context. Rread never carrying more than Tread asked for is the Ufs read model of C14 (pread clamps to count); the client side of the negotiation (Connect adopting min / conjunction) is exercised by the C09/C10/C14 harness sessions, not modelled.",
     },
     "C09": {
-        "gen": ["consts", "shape"],
+        "gen": ["consts", "shape", "lockfacts"],
         "clauses": ["C09"],
         "modes": [{"name": "clnt", "harness": "clnt", "modelcheck": "clnt"},
                   {"name": "clntlog", "harness": "clntlog", "modelcheck": "clntref"}],
@@ -268,11 +269,11 @@ PROPS = {
         "level_note": "Trusted: Coq kernel; translator (NOTAG, reqchan capacity 16); extraction + OCaml driver; Go harness. The tie is a correspondence on outcomes through a canonical schedule (the client has no schedule-point replay, unlike the server); frame contents are abstracted to (tag, kind); Fcall buffer recycling (tchan) is not modelled. Print Assumptions: closed under the global context.",
     },
     "C10": {
-        "gen": ["consts", "shape"],
+        "gen": ["consts", "shape", "lockfacts"],
         "clauses": ["C10"],
         "modes": [{"name": "clnt", "harness": "clnt", "modelcheck": "clnt"},
                   {"name": "clntlog", "harness": "clntlog", "modelcheck": "clntref"}],
-        "rule": "scripted sessions with 0..4 outstanding calls: the server-to-client stream cut after every byte offset (quick: every 7th), EOF, garbage / oversize (> 8*msize) / undersize frames, a reply with an unknown tag, Unmount during calls; a later call after each failure; callers held by the hook rpcnb.linked between linking their request and handing it to the send goroutine while the failure strikes. Every call must return within 3 s. Oracle: no call hangs, a call succeeds only if its complete reply was delivered, replies complete before the failure are delivered, later calls are refused; correspondence: canonical schedule through the Coq client LTS. Non-trivial: >= 2 calls; distinct by content.",
+        "rule": "writefail: only the write direction of the transport fails (Write returns an error, Read keeps blocking): every outstanding and every later call must return an error. scripted sessions with 0..4 outstanding calls: the server-to-client stream cut after every byte offset (quick: every 7th), EOF, garbage / oversize (> 8*msize) / undersize frames, a reply with an unknown tag, Unmount during calls; a later call after each failure; callers held by the hook rpcnb.linked between linking their request and handing it to the send goroutine while the failure strikes. Every call must return within 3 s. Oracle: no call hangs, a call succeeds only if its complete reply was delivered, replies complete before the failure are delivered, later calls are refused; correspondence: canonical schedule through the Coq client LTS. Non-trivial: >= 2 calls; distinct by content.",
         "level_text": "Coq theorems (Props/C10.v) over the client LTS with its shutdown path (clnt.err, close(done), detaching the pending list, reporting the error to each pending request): in EVERY reachable state after a failure, while some call has not returned the client can take a step by itself and every such step decreases a bound, hence all outstanding and later calls return (no deadlock, no livelock); later calls are refused without touching the transport; success implies a complete reply frame was received; a reply matched before the failure is never replaced by the connection error; the receive loop turns bad frames into a failure and never reads with an empty buffer. 'Within bounded time' is rendered as a bound on the client's own steps.",
         "level_note": "Trusted: Coq kernel; translator; extraction + OCaml driver; Go harness with the hook rpcnb.linked. Wall-clock bounds are only measured by the harness (3 s deadline); Unmount is exercised by the oracle only (it sets clnt.err from the caller's goroutine, which the LTS models as a failure noticed by recv). Print Assumptions: closed under the global context.",
     },
@@ -280,7 +281,7 @@ PROPS = {
         "gen": ["consts", "shape"],
         "clauses": ["C16"],
         "modes": [{"name": "ufstree-meta", "harness": "ufstree", "modelcheck": "ufstree", "args": ["meta"]}],
-        "rule": "random trees on a scratch directory (names with spaces, non-ASCII bytes, dots, 255-byte names; files, directories, symlinks, hard links; a 40-level chain so client walks need several Twalks): FStat of every object in both dialects compared field by field with os.Lstat (qid type/path, DMDIR, DMSYMLINK, permission bits, length, mtime, name); walks of 1..15 elements of which a prefix exists, in place and to a new fid, compared with os.Lstat (qid count and inodes, error when the first is missing) and with the host path each fid designates afterwards (accessor VerifUfsFidPath); deep and missing paths through FStat. The Coq metadata mapping is evaluated on the Lstat facts and compared with the reply. Distinct by content.",
+        "rule": "Fids that have been opened are asked again: a symbolic link whose fid is open still reports the link (type, length, qid path), a name re-bound on disk while the fid is open reports the new object. random trees on a scratch directory (names with spaces, non-ASCII bytes, dots, 255-byte names; files, directories, symlinks, hard links; a 40-level chain so client walks need several Twalks): FStat of every object in both dialects compared field by field with os.Lstat (qid type/path, DMDIR, DMSYMLINK, permission bits, length, mtime, name); walks of 1..15 elements of which a prefix exists, in place and to a new fid, compared with os.Lstat (qid count and inodes, error when the first is missing) and with the host path each fid designates afterwards (accessor VerifUfsFidPath); deep and missing paths through FStat. The Coq metadata mapping is evaluated on the Lstat facts and compared with the reply. Distinct by content.",
         "level_text": "Coq theorems (Props/C16.v) over the model of Ufs.Walk (for ANY tree, given as an arbitrary existence oracle, any fid path and any name list): every walked element exists and the next does not, Rwalk carries that many qids, a missing first element is an error, and the new fid moves only when every element was walked (otherwise both fids stay); the client's FWalk in chunks of 16 names resolves exactly like one walk at any depth; qid type, DMDIR/DMSYMLINK, permission bits and qid path are functions of the file's metadata as the statement lists. Tied to the code by trees compared against os.Lstat.",
         "level_note": "Trusted: Coq kernel; extraction + OCaml driver; Go harness (spy wrapper around Ufs using the build-tagged accessor for fid paths). The tree is an oracle in the model: real Lstat/inode semantics, user and group name lookup and walks through symlinks are outside the model (compared with the OS by the harness only). Print Assumptions: closed under the global context.",
     },
@@ -296,7 +297,7 @@ PROPS = {
         "gen": ["consts", "shape"],
         "clauses": ["C18"],
         "modes": [{"name": "ufstree-confine", "harness": "ufstree", "modelcheck": "ufstree", "args": ["confine"]}],
-        "rule": "scratch layout outer/{canary files and directories}, outer/root/...; sessions of attach names, walk element lists, create names (files and symlinks with hostile targets) and wstat rename targets drawn from a grammar of '..', '.', '', '/', 'a/../..', absolute paths, deep '../' chains and mixtures with real names, each followed by stat/write/remove; the host path every fid designates is read through the accessor. Oracle: every fid path has the root as prefix, the canaries (content, kind, permissions, existence) are unchanged, no reply carries the inode of an outside object; correspondence: the Coq path functions (attach_path, walk_step/ufs_walk, create_path, rename_dest, symlink_ok) predict the same paths and refusals, given the listing of the tree. Distinct by content.",
+        "rule": "Scripted sessions create symbolic links through the protocol whose target leaves the root ('..', '../', 'sub/../..', './..', absolute) and then walk through them to the canaries outside. scratch layout outer/{canary files and directories}, outer/root/...; sessions of attach names, walk element lists, create names (files and symlinks with hostile targets) and wstat rename targets drawn from a grammar of '..', '.', '', '/', 'a/../..', absolute paths, deep '../' chains and mixtures with real names, each followed by stat/write/remove; the host path every fid designates is read through the accessor. Oracle: every fid path has the root as prefix, the canaries (content, kind, permissions, existence) are unchanged, no reply carries the inode of an outside object; correspondence: the Coq path functions (attach_path, walk_step/ufs_walk, create_path, rename_dest, symlink_ok) predict the same paths and refusals, given the listing of the tree. Distinct by content.",
         "level_text": "Coq theorems (Props/C18.v) over the model of the host paths Ufs computes with Go's lexical path functions: for ANY root, ANY byte strings as attach name, walk elements, create name, rename target and symlink target, and ANY tree: attach stays under the root, every walk step stays under the root ('..' at the root stays, elements containing '/' name nothing), create names and rename targets are confined or refused, an accepted symlink cannot lead out of its directory, and by induction over ANY request sequence every host path handed to the operating system and every fid stay under the root.",
         "level_note": "Partial w.r.t. the kernel: path resolution is modelled lexically (sound for a tree without symlinks leaving it, which the property assumes and which the create check preserves). Trusted: Coq kernel; extraction; Go harness and the accessor. Print Assumptions: closed under the global context.",
     },
